@@ -4,8 +4,8 @@ from common import *
 CLAIMED = True
 LEVEL = 'proof'
 LEVEL_TEXT = ('Proof, assembled from parts (coq/Properties/C02_*.v): everything drawn lies inside bounding_box() and transparent styles draw nothing, as theorems over the executable models for styled Rectangle/Circle/Ellipse (C02_circle_*: draw and pixels(), every stroke width and alignment), RoundedRectangle (C02_rrect_*), Sector and Arc (C02_sector_*, C02_arc_*), images and sub-images (C02_image_*, box is tight), text with ANY font record satisfying font_wf and, by reflection over the regenerated font table, every built-in font with all decorations/baselines/alignments/line heights (C02_text_*), fill-only triangles, triangle edge lines and thin polylines (C02_tri_*), and for thick strokes: every pixel of a thick polyline in the styled box when no segment collapses to a skeleton, the stroke lines of triangles (Center/Outside, width >= 2), fill-only / collapsed / width-1 Center triangles, all thick-segment corners and the drawn skeleton edge (C02_join_*), thick lines on a finite grid (C02_line_*).')
-LEVEL_NOTE = ('Partial where listed: pixel-level containment of thick strokes (every Bresenham pixel of edges and caps of a thick polyline/triangle/line inside the box) is not a theorem; it is covered by the model-independent searches p_thick_bbox and p_bbox (all families, widths up to 24). Styled lines (thick) likewise. Models tied to the code by differential testing; range hypotheses per part (2^27..2^29).')
-PARTIAL = ['thick strokes (lines, polylines width >= 2, triangles width >= 1): box contains segment corners (theorem), pixel-level containment by search only', 'C02_tri_polyline_thin_in_bbox_partial: thin polyline against Polyline::bounding_box(), styled box by search']
+LEVEL_NOTE = ('Partial where listed: pixel-level containment of thick strokes is a theorem except for skeleton segments, Inside strokes of width >= 2 and thick lines beyond the grid; those are covered by the model-independent searches p_thick_bbox, p_thick_grid, p_thick_skel and p_bbox (all families, widths up to 24). Models tied to the code by differential testing; range hypotheses per part (2^27..2^29).')
+PARTIAL = ['thick strokes: pixel-level containment is a theorem for thick polylines without a skeleton segment, triangle stroke lines (Center/Outside, w >= 2), fill-like and width-1 Center triangles, and thick lines on the grid |d| <= 24, w <= 16; skeleton segments, Inside strokes of width >= 2 and lines beyond the grid: searches p_thick_bbox / p_thick_grid / p_thick_skel / p_bbox', 'thin polylines: proved against the styled box (C02_tri_polyline_thin_in_styled_bbox) and against Polyline::bounding_box()']
 RULE = ('search p_bbox: every drawable family of the zoo x random styles (stroke widths 0..24 incl. wider than the shape, 3 alignments, '
         'fill/stroke present/absent) x positions: every pixel drawn (native and draw_iter-only target) and every pixels() item lies in bounding_box(); '
         'transparent styles draw nothing.')
